@@ -44,6 +44,7 @@ func runC01(c *Ctx) {
 	c01Layout(c)
 	c01SelectionsPrivate(c)
 	scanTotal(c)
+	errorListOnce(c)
 }
 
 // c01SelectionsPrivate: the merged sub-selection of a collected field is a slice private to that CollectFields call.  Fields
@@ -476,6 +477,7 @@ func c01OneError(c *Ctx) {
 
 func c01PathCtx(c *Ctx) {
 	c.R.Rule("path-ctx", "field functions: the middleware call and every Error/Errorf are dominated by WithFieldContext(ctx, fc) with fc from their field-context function; list marshalers: each element runs under WithFieldContext of a FieldContext whose Index is the address of the per-iteration index; args functions: each coercion is dominated by WithPathContext(NewPathWithField(k)) with k the key the raw argument was read with", 100)
+	nArgs := 0
 	total := 0
 	for _, g := range c.Gen {
 		for _, fn := range c.genFuncs(g) {
@@ -525,8 +527,11 @@ func c01PathCtx(c *Ctx) {
 					}
 				}
 				c.R.Check(bad == "", key, c.ipos(wfc), "context installed before the resolver chain and every error report", bad)
-			case strings.HasPrefix(name, "field_") && strings.HasSuffix(name, "_args"):
+			case (strings.HasPrefix(name, "field_") || strings.HasPrefix(name, "dir_")) && strings.Contains(name, "_args"):
+				// the aggregate args function and the per-argument functions (field_T_f_argsName) alike
+				n0 := total
 				c.argsPath(g, fn, &total)
+				nArgs += total - n0
 			}
 		}
 		// list marshalers
@@ -576,6 +581,9 @@ func c01PathCtx(c *Ctx) {
 		}
 	}
 	c.R.SetFloor(total)
+	if nArgs < 20 {
+		c.R.Fail("path-ctx examined only %d argument lookups (the per-argument functions were not found)", nArgs)
+	}
 	if total < 100 {
 		c.R.Fail("path-ctx examined only %d functions", total)
 	}
